@@ -215,6 +215,41 @@ def run_search(ctx, Sim, failing, sites):
 # --------------------------------------------------------------------------------------------
 # random programs
 
+class _Skip(Exception):
+    pass
+
+
+def in_range(l, f, op, ins, extra):
+    """Every operand, every difference fed to a comparison and every (intermediate) result of the
+    operation stays inside the documented range of SecFxp(l,f): operands and results |X| < 2^(l-2)
+    (so |a - b| < 2^(l-1)), raw products < 2^(l-2) * 2^f."""
+    U = 2 ** f
+    lim = 2 ** (l - 2)
+    if any(abs(v) >= lim for v, _ in leaves(ins)):
+        return False
+    exp = oracle({'t': [l, f], 'op': op, 'ins': ins, 'extra': extra})
+    for kind, x in (exp or []):
+        if kind == 'exact' and abs(x) >= lim:
+            return False
+        if kind == 'unit' and abs(x) >= lim * U:
+            return False
+        if kind == 'pow':
+            X, n = x
+            if max(U, abs(X)) ** n >= lim * U ** n:
+                return False
+        if kind == 'prod':
+            p = 1
+            for t in x:
+                p *= max(U, abs(t))
+            if p >= lim * U ** len(x):
+                return False
+    if op in ('in_prod', 'matrix_prod', 'schur_prod', 'scalar_mul'):     # sums of absolute products as well
+        vs = [abs(v) for v, _ in leaves(ins)]
+        if sum(vs) * max(vs + [U]) >= lim * U:
+            return False
+    return True
+
+
 def make_prog(l, f, seed, nops, records, use_input):
     import random as _random
     U = 2 ** f
@@ -241,7 +276,7 @@ def make_prog(l, f, seed, nops, records, use_input):
 
         def fresh_scalar():
             kind = rng.random()
-            mag = rng.choice([1, 2, 3, 7])
+            mag = rng.choice([m_ for m_ in (1, 2, 3, 7) if m_ * U < 2 ** (l - 3)] or [1])
             if kind < 0.4:
                 v = rng.randint(-mag, mag)
                 return secfxp(v), v * U, True
@@ -285,6 +320,10 @@ def make_prog(l, f, seed, nops, records, use_input):
         def small(c, b=8):
             return abs(c[1]) <= b * U
 
+        def guard(op_, ins_, extra_=None):
+            if not in_range(l, f, op_, ins_, extra_):
+                raise _Skip()
+
         for step in range(nops):
             op = rng.choice(OPS)
             if os.environ.get('C03_DEBUG'):
@@ -293,6 +332,7 @@ def make_prog(l, f, seed, nops, records, use_input):
                 new = []
                 if op in ('neg', 'pos', 'abs', 'sgn', 'lsb_flag', 'is_zero'):
                     a = pick()
+                    guard(op, [[a[1], a[2]]])
                     z = {'neg': lambda: -a[0], 'pos': lambda: +a[0], 'abs': lambda: mpc.abs(a[0]),
                          'sgn': lambda: mpc.sgn(a[0]), 'lsb_flag': lambda: mpc.lsb(a[0]),
                          'is_zero': lambda: mpc.is_zero(a[0])}[op]()
@@ -303,6 +343,7 @@ def make_prog(l, f, seed, nops, records, use_input):
                         b = a
                     if op == 'mul' and not (small(a) and small(b)):
                         continue
+                    guard(op, [[a[1], a[2]], [b[1], b[2]]])
                     if op in ('if_else', 'if_swap'):
                         c = a[0] < b[0]
                         z = mpc.if_else(c, a[0], b[0]) if op == 'if_else' else mpc.if_swap(c, a[0], b[0])
@@ -316,6 +357,7 @@ def make_prog(l, f, seed, nops, records, use_input):
                     n = rng.choice([0, 1, -1, 2, 3, -5])
                     if op != 'add_int' and op != 'rsub_int' and not small(a, 64):
                         continue
+                    guard(op, [[a[1], a[2]]], n)
                     z = {'add_int': lambda: a[0] + n, 'mul_int': lambda: a[0] * n, 'rmul_int': lambda: n * a[0],
                          'rsub_int': lambda: n - a[0]}[op]()
                     new = await op_out(op, [[a[1], a[2]]], z, extra=n)
@@ -324,6 +366,7 @@ def make_prog(l, f, seed, nops, records, use_input):
                     if not small(a, 64):
                         continue
                     b = rng.choice([0.5, 0.375, 2.0, -3.0, 0.1, 1 / 3, 1.0, 0.0, 2.0 ** -f, 1.25, -0.75, 3 * 2.0 ** -f])
+                    guard(op, [[a[1], a[2]]], round(b * U))
                     z = a[0] * b if op == 'mul_float' else a[0] + b
                     new = await op_out(op, [[a[1], a[2]]], z, extra=round(b * U))
                 elif op == 'lshift':
@@ -331,12 +374,14 @@ def make_prog(l, f, seed, nops, records, use_input):
                     k = rng.choice([0, 1, 2, f - 1, f, f + 1])
                     if abs(a[1]) * 2 ** k >= LIM:
                         continue
+                    guard(op, [[a[1], a[2]]], k)
                     new = await op_out(op, [[a[1], a[2]]], mpc.lshift(a[0], k), extra=k)
                 elif op == 'pow':
                     a = pick()
                     n = rng.choice([1, 2, 3, 4, 5])
                     if not small(a, 2):
                         continue
+                    guard(op, [[a[1], a[2]]], n)
                     new = await op_out(op, [[a[1], a[2]]], a[0] ** n, extra=n)
                 elif op in ('sum', 'prod', 'min', 'max', 'sorted'):
                     xs = pick_list(rng.randint(2, 4), mixed=rng.random() < 0.6)
@@ -344,6 +389,7 @@ def make_prog(l, f, seed, nops, records, use_input):
                         print('  list', [(c[1], c[2], id(c[0])) for c in xs], flush=True)
                     if op == 'prod' and not all(small(c, 3) for c in xs):
                         continue
+                    guard(op, [[c[1], c[2]] for c in xs])
                     z = {'sum': mpc.sum, 'prod': mpc.prod, 'min': mpc.min, 'max': mpc.max, 'sorted': mpc.sorted}[op]([c[0] for c in xs])
                     new = await op_out(op, [[c[1], c[2]] for c in xs], z)
                 elif op in ('in_prod', 'vector_add', 'vector_sub', 'schur_prod', 'if_else_list', 'if_swap_list'):
@@ -354,10 +400,12 @@ def make_prog(l, f, seed, nops, records, use_input):
                         ys = xs
                     if op in ('in_prod', 'schur_prod') and not all(small(c) for c in xs + ys):
                         continue
+                    guard('vector_add' if op.startswith('if_') else op, [[[c[1], c[2]] for c in xs], [[c[1], c[2]] for c in ys]])
                     X, Y = [c[0] for c in xs], [c[0] for c in ys]
                     ex = None
                     if op in ('if_else_list', 'if_swap_list'):
                         a, b = pick(), pick()
+                        guard('lt', [[a[1], a[2]], [b[1], b[2]]])
                         c = a[0] < b[0]
                         ex = int(a[1] < b[1])
                         z = mpc.if_else(c, X, Y) if op == 'if_else_list' else mpc.if_swap(c, X, Y)
@@ -369,6 +417,7 @@ def make_prog(l, f, seed, nops, records, use_input):
                     xs = pick_list(rng.randint(2, 3), mixed=rng.random() < 0.6)
                     if not (small(a) and all(small(c) for c in xs)):
                         continue
+                    guard(op, [[a[1], a[2]], [[c[1], c[2]] for c in xs]])
                     z = mpc.scalar_mul(a[0], [c[0] for c in xs])
                     new = await op_out(op, [[a[1], a[2]], [[c[1], c[2]] for c in xs]], z)
                 elif op == 'matrix_prod':
@@ -376,6 +425,7 @@ def make_prog(l, f, seed, nops, records, use_input):
                     B = [pick_list(2, mixed=rng.random() < 0.4) for _ in range(2)]
                     if not all(small(c) for r in A + B for c in r):
                         continue
+                    guard(op, [[[[c[1], c[2]] for c in r] for r in A], [[[c[1], c[2]] for c in r] for r in B]])
                     z = mpc.matrix_prod([[c[0] for c in r] for r in A], [[c[0] for c in r] for r in B])
                     new = await op_out(op, [[[[c[1], c[2]] for c in r] for r in A], [[[c[1], c[2]] for c in r] for r in B]], z)
                 elif op == 'input_list':
@@ -394,18 +444,22 @@ def make_prog(l, f, seed, nops, records, use_input):
                     z = mpc.input(objs, senders=0)
                     new = await op_out(op, [vals], z)
                 elif op == 'convert':
-                    n = rng.randint(-9, 9)
+                    nmax = max(1, min(9, 2 ** (l - f - 2) - 1))
+                    n = rng.randint(-nmax, nmax)
                     z = mpc.convert(mpc.input(secint(n), senders=0), secfxp)
                     new = await op_out(op, [], z, extra=n)
                 elif op == 'to_bits':
                     a = pick()
+                    guard('neg', [[a[1], a[2]]])
                     bits = mpc.to_bits(a[0])
                     new = await op_out(op, [[a[1], a[2]]], bits)
-                    z = mpc.from_bits(bits[f:f + 6] if len(bits) > f + 6 else bits[:4])
-                    new2 = await op_out('from_bits', [[c[1], c[2]] for c in (new[f:f + 6] if len(new) > f + 6 else new[:4])], z)
+                    nb = max(1, min(6, l - f - 3))        # integer bits only, value below 2^(l-f-3)
+                    z = mpc.from_bits(bits[f:f + nb])
+                    new2 = await op_out('from_bits', [[c[1], c[2]] for c in new[f:f + nb]], z)
                     new = new2
                 elif op == 'seclist_get':
                     xs = pick_list(3, mixed=rng.random() < 0.6)
+                    guard('sum', [[c[1], c[2]] for c in xs])
                     i = rng.randrange(3)
                     s = seclist([c[0] for c in xs], secfxp)
                     z = s[mpc.input(secfxp(i), senders=0)]
@@ -413,20 +467,22 @@ def make_prog(l, f, seed, nops, records, use_input):
                 elif op == 'random':
                     which = rng.choice(['randrange', 'unit', 'bits', 'getrandbits'])
                     if which == 'randrange':
-                        z = mrandom.randrange(secfxp, 1, 7)
+                        z = mrandom.randrange(secfxp, 1, min(7, 2 ** (l - f - 2)))
                     elif which == 'unit':
                         z = mrandom.random_unit_vector(secfxp, 4)
                     elif which == 'bits':
                         z = mpc.random_bits(secfxp, 3)
                     else:
-                        z = mrandom.getrandbits(secfxp, 3)
+                        z = mrandom.getrandbits(secfxp, min(3, l - f - 3))
                     new = await op_out(op, [], z, extra=which)
                 else:
                     continue
                 for c in new:
                     sound = (not c[2]) or c[1] % U == 0
-                    if sound and abs(c[1]) < 64 * U and len(pool) < 40:
+                    if sound and abs(c[1]) < min(64 * U, 2 ** (l - 3)) and len(pool) < 40:
                         pool.append(c)
+            except _Skip:
+                continue
             except Exception as exc:  # noqa
                 if rec_on:
                     records.append({'t': [l, f], 'op': op, 'exc': repr(exc)[:200]})
